@@ -65,7 +65,7 @@ pub const OPS: &[&str] = &[
     "query A { me { id } } query A { me { name } } { colors }",
     "{ me { friends { friends { friends { id } } } } a: colors a: me { id } }",
     "subscription { x } query { __schema { types { name } } __type(name: \"User\") { fields { name } } }",
-    "query A { ...F me { id } } query B { ...F } fragment F on Query { x: me { id } x: colors y: node(id: 1) { id } y: node(id: 2) { id } }",
+    "query A { ...F } query B { ...F } fragment F on Query { x: me { id } x: colors y: node(id: 1) { id } y: node(id: 2) { id } }",
 ];
 
 // Inputs on which `Type::parse` panics ("!", "") or silently ignores trailing input ("Int!!",
@@ -842,8 +842,37 @@ impl Property for C31 {
     }
 
     fn replay(&self, case: &J) -> Result<Option<Violation>, String> {
+        if case.get("miri").is_some() {
+            return crate::core::miri::replay(case);
+        }
         let case = Case::from_json(case)?;
         Ok(exec_case(&case)?.violation)
+    }
+
+    fn post_batch(&self, seed: u64, tier: Tier) -> Result<(J, Vec<(Violation, J)>), String> {
+        use crate::core::miri;
+        if tier == Tier::Quick {
+            return Ok((json!({"miri": "thorough tier only"}), vec![]));
+        }
+        let base = mix(&[seed, 0x4d32]) % 1_000_000;
+        let mut evidence = vec![];
+        let mut violations = vec![];
+        for k in 0..4 {
+            let job = miri::Job {
+                mode: "c31-free",
+                workload_seed: base + k,
+                workload_count: 1,
+                miri_seeds: 16,
+                flags: miri::FLAGS_PARSING,
+            };
+            let out = miri::run_job(&job)?;
+            evidence.push(out.evidence);
+            if let Some(v) = out.violation {
+                violations.push(v);
+                break;
+            }
+        }
+        Ok((json!({"miri": evidence}), violations))
     }
 
     fn minimise(&self, case: &J, class: &str) -> (J, u64) {
